@@ -1,6 +1,7 @@
 package props
 
 import (
+	"context"
 	"errors"
 	"fmt"
 	"sort"
@@ -15,7 +16,19 @@ import (
 
 // C25 — replica selection: backend/balancer.go (gcd, newBalancer, next) and
 // backend/slice.go (getIndicesAndWeights, InitBalancers, getNodeFromBalancer,
-// getConnFromBalancer, GetSlaveConn) with scripted pools.
+// getConnFromBalancer, getConnFromBalancerTryAll, GetSlaveConn) with scripted
+// pools; every ConnPool.Get of a selection is recorded and compared.
+
+// c25Pool records every Get (the node number) in the log of the running selection.
+type c25Pool struct {
+	*balFakePool
+	log *[]int
+}
+
+func (p *c25Pool) Get(ctx context.Context) (backend.PooledConnect, error) {
+	*p.log = append(*p.log, p.node)
+	return p.balFakePool.Get(ctx)
+}
 
 func init() {
 	core.Register(&core.Property{
@@ -23,7 +36,9 @@ func init() {
 		Rule: "bal: newBalancer on 1–6 (quick ≤4) nodes, weights 0–8 (+ multiples, negatives, all-zero, duplicate indices, length mismatch), queue order fixed by generated keys, " +
 			"cursor preset at 0, inside a round and within 8 of 2^32, up to 3 rounds of next; conc: 16 goroutines × k rounds, exact counts; " +
 			"gsc: DBInfo of 1–6 nodes, two datacenters (+ proxy in a third), up/down and pool ok/failing states changed between selections, " +
-			"policies closed/prefer/force/other, plus all-up single-policy runs of ≥2 rounds for the window check; non-trivial = a node was selected",
+			"policies closed/prefer/force/other, plus all-up single-policy runs of ≥2 rounds for the window check, plus preferred-local runs in which " +
+			"about half of the pools fail (retry over the local, then the remote replicas); the sequence of pools asked by every selection is part of the output; " +
+			"non-trivial = a node was selected",
 		Generate: genC25,
 		Exec:     execC25,
 		Trivial: func(in core.Sexp, out string) bool {
@@ -165,6 +180,7 @@ func execC25(in core.Sexp) string {
 func execC25Gsc(in core.Sexp) string {
 	proxy := fmt.Sprintf("dc%d", in.Nth(1).Int())
 	lastGet := -1
+	var getLog []int
 	var pools []*balFakePool
 	dbi := &backend.DBInfo{}
 	for i, n := range in.Nth(2).List {
@@ -172,7 +188,7 @@ func execC25Gsc(in core.Sexp) string {
 		if !n.Nth(3).Bool() {
 			p.answer = "conn"
 		}
-		nd := &backend.NodeInfo{Address: p.Addr(), Datacenter: p.dc, Weight: int(n.Nth(0).Int()), ConnPool: p, Status: backend.StatusDown}
+		nd := &backend.NodeInfo{Address: p.Addr(), Datacenter: p.dc, Weight: int(n.Nth(0).Int()), ConnPool: &c25Pool{p, &getLog}, Status: backend.StatusDown}
 		if n.Nth(2).Bool() {
 			nd.Status = backend.StatusUp
 		}
@@ -209,7 +225,7 @@ func execC25Gsc(in core.Sexp) string {
 		}
 	}
 	s := &backend.Slice{Namespace: "verif", Slave: dbi, ProxyDatacenter: proxy}
-	var outs []string
+	var outs, gets []string
 	for _, op := range in.Nth(5).List {
 		switch op.Head() {
 		case "up":
@@ -231,13 +247,15 @@ func execC25Gsc(in core.Sexp) string {
 			}
 		case "sel":
 			lastGet = -1
+			getLog = nil
 			pc, err := s.GetSlaveConn(dbi, int(op.Nth(1).Int()))
 			outs = append(outs, c25Outcome(pc, err, lastGet))
+			gets = append(gets, fmtIntList(getLog))
 		default:
 			return "bad"
 		}
 	}
-	return "(ok (" + strings.Join(qs[:], " ") + ") (" + strings.Join(outs, " ") + "))"
+	return "(ok (" + strings.Join(qs[:], " ") + ") (" + strings.Join(outs, " ") + ") (" + strings.Join(gets, " ") + "))"
 }
 
 func c25Outcome(pc backend.PooledConnect, err error, lastGet int) string {
@@ -372,7 +390,9 @@ func genC25(g *core.Gen) {
 		if g.Intn(40) == 0 {
 			k = 0
 		}
-		allUp := g.Intn(3) == 0
+		mode := g.Intn(4)
+		allUp := mode == 0
+		preferRetry := mode == 1 // preferred-local reads with many failing pools
 		ws := weights(k)
 		nodes := make([]core.Sexp, k)
 		sum := 0
@@ -386,6 +406,10 @@ func genC25(g *core.Gen) {
 			}
 			up := allUp || g.Intn(4) != 0
 			pool := allUp || g.Intn(5) != 0
+			if preferRetry {
+				up = g.Intn(6) != 0
+				pool = g.Intn(2) == 0
+			}
 			nodes[j] = core.L(core.I(int64(w)), core.I(int64(g.Intn(2))), core.B(up), core.B(pool))
 		}
 		proxy := int64(g.Intn(2))
@@ -403,6 +427,21 @@ func genC25(g *core.Gen) {
 			}
 			for j := 0; j < cnt; j++ {
 				ops = append(ops, core.L(core.A("sel"), core.I(p)))
+			}
+		} else if preferRetry {
+			tag = "prefer-failing-pools"
+			cnt := 1 + g.Intn(g.Scale(16, 30))
+			for j := 0; j < cnt; j++ {
+				switch g.Intn(10) {
+				case 0:
+					ops = append(ops, core.L(core.A("up"), core.I(int64(g.Intn(k+1))), core.B(g.Intn(3) != 0)))
+				case 1, 2:
+					ops = append(ops, core.L(core.A("pool"), core.I(int64(g.Intn(k+1))), core.B(g.Intn(2) == 0)))
+				case 3:
+					ops = append(ops, core.L(core.A("sel"), core.I(core.Pick(g, policies))))
+				default:
+					ops = append(ops, core.L(core.A("sel"), core.I(1)))
+				}
 			}
 		} else {
 			cnt := 1 + g.Intn(g.Scale(24, 40))
